@@ -30,7 +30,7 @@ func c09Part(t *rapid.T, last bool, typ string) string {
 		// a line break written inside the literal (followed by indentation)
 		// (also as the very last thing before the closing quote: it then leaves one trailing space)
 		if rapid.IntRange(0, 9).Draw(t, "innernl") == 0 {
-			sb.WriteString(rapid.SampledFrom([]string{"\n", "\n\t\t", "\r\n  ", " \n "}).Draw(t, "nlform"))
+			sb.WriteString(rapid.SampledFrom([]string{"\n", "\n\t\t", "\r\n  ", " \n ", "\n\t\u3000", "\n\u00a0"}).Draw(t, "nlform")) // (a no-break or ideographic space is content, not indentation)
 		}
 	}
 	s := sb.String()
